@@ -220,6 +220,7 @@ int skinny128_ctr_init(Skinny128CTR_t *ctr)
     if (_skinny_has_vec256())
         vtable = &_skinny128_ctr_vec256;
     ctr->vtable = vtable;
+    ctr->ctx = 0;
 
     /* Initialize the CTR mode context */
     return (*(vtable->init))(ctr);
